@@ -17,7 +17,7 @@ from core import Case, q, qs, qpts, fr, show_list, show_pts, err_class
 import gen as G
 
 PID = 'C08'
-FLOAT_KINDS = {'elevred', 'elev', 'elev-rows', 'red', 'binom', 'bern', 'opdeg'}      # float-mode companion (core.float_companion)
+FLOAT_KINDS = {'elevred', 'elev', 'elev-rows', 'red', 'binom', 'binomrow', 'bern', 'opdeg'}      # float-mode companion (core.float_companion)
 FLOAT_TOL = 1e-8
 STATS = G.STATS
 PARTIAL = []   # every planned theorem of DESIGN section 7/C08 (tier 1 and tier 2) is proved, see Props/C08.lean
@@ -125,6 +125,10 @@ def gen(rng, tier):
     for k in ks:
         for i in (range(0, k + 3) if not quick else sorted({0, 1, k // 2, max(k - 1, 0), k, k + 1, k + 2})):
             out.append(Case('binom', "binom %d %d" % (k, i), dict(k=k, i=i)))
+    # whole rows of the table (every k up to 18 in both tiers): each row is ONE case, so the float-mode companion - whose budget
+    # is shared among the kinds - sees every entry in plain doubles (a formula that is exact in rationals but rounds in doubles)
+    for k in range(0, 19):
+        out.append(Case('binomrow', "binomrow %d" % k, dict(k=k)))
     # Bernstein form = the library's curve on the one-span clamped knot vector
     for _ in range(40 if quick else 500):
         p = rng.randint(1, maxp); dim = rng.randint(2, 4)     # the curve classes want >= 2 coordinates
@@ -213,6 +217,8 @@ def impl(c):
         return show_pts(helpers.degree_reduction(d['p'], qpts(d['P'])))
     if k == 'binom':
         return fr(linalg.binomial_coefficient(d['k'], d['i']))
+    if k == 'binomrow':
+        return ",".join(fr(linalg.binomial_coefficient(d['k'], i)) for i in range(d['k'] + 3))
     if k == 'bern':
         return show_list(_curve(d).evaluate_single(q(d['u'])))
     if k == 'opdeg':
@@ -294,6 +300,13 @@ def oracle(c):
             return "%s with %s is not rejected (got %s)" % (
                 'degree_elevation' if d['op'] == 'elev' else 'degree_reduction',
                 {'count': 'a non-Bezier number of control points', 'num': 'num=%s' % d.get('num'), 'degree': 'degree %d' % d['p']}[d['why']], e)
+        return None
+    if k == 'binomrow':
+        comb = __import__('math').comb
+        for i in range(d['k'] + 3):
+            got = linalg.binomial_coefficient(d['k'], i)
+            if got != comb(d['k'], i):
+                return "binomial_coefficient(%d,%d) = %s, expected %d" % (d['k'], i, fr(got), comb(d['k'], i))
         return None
     if k == 'binom':
         got = linalg.binomial_coefficient(d['k'], d['i'])
